@@ -39,7 +39,9 @@ Proof.
   intros H0 Hstep. unfold apply.
   destruct (if force then None else check p w0 nb) as [e|].
   - exists 0. cbn. split; [lia|]. split; [exact H0|]. intros w' Hw'. discriminate Hw'.
-  - destruct (run_steps_inv I (steps nb p w0) 0 w0 H0) as (j & Hj & HIj & Hok).
+  - destruct (pre_bind p w0 nb) as [e|].
+    { exists 0. cbn. split; [lia|]. split; [exact H0|]. intros w' Hw'. discriminate Hw'. }
+    destruct (run_steps_inv I (steps nb p w0) 0 w0 H0) as (j & Hj & HIj & Hok).
     { intros j s w1 Hn Hw1. cbn in *. apply (Hstep j s w1 Hn Hw1). }
     exists j. cbn in Hj. cbn [plus] in HIj. auto.
 Qed.
@@ -138,8 +140,8 @@ Lemma s4_frame p w0 nb w : let w' := world_of (step_destroy_repository_fetch p w
   /\ (forall l', otags (get_other w' l') = otags (get_other w l')).
 Proof.
   unfold step_destroy_repository_fetch; brk; cbn; auto 10.
-  match goal with H : place_repo_add _ _ _ _ = Some _, G : get_other _ _ = Some _ |- _ =>
-    apply (place_repo_add_frame _ _ _ _ _ H) in G end. tauto.
+  all: match goal with H : place_repo_add _ _ _ _ = Some _, G : get_other _ _ = Some _ |- _ =>
+    apply (place_repo_add_frame _ _ _ _ _ H) in G end; tauto.
 Qed.
 
 Lemma s5a_frame p w : let w' := world_of (step_destroy_reference p w) in
@@ -227,7 +229,6 @@ Lemma s8_branch p w0 nb w : same_branch_payload (w_branch w) (w_branch (world_of
 Proof.
   unfold step_bind. destruct (p_bind p); cbn; [|apply same_branch_payload_refl].
   destruct (select_bind w0 nb); cbn; [|apply same_branch_payload_refl].
-  destruct (get_other w l); cbn; [|apply same_branch_payload_refl].
   destruct (w_branch w) eqn:E; cbn; rewrite ?E; cbn; auto.
 Qed.
 
@@ -259,6 +260,7 @@ Lemma apply_ok_inv (I : nat -> world -> Prop) force nb p w0 w' :
 Proof.
   intros H0 Hstep Hap. unfold apply in Hap.
   destruct (if force then None else check p w0 nb) as [e|]; [discriminate Hap|].
+  destruct (pre_bind p w0 nb) as [e|]; [discriminate Hap|].
   apply (run_steps_ok_inv I (steps nb p w0) 0 w0 H0); [|exact Hap].
   intros j s w1 w2 Hn Hw1 Hs. cbn in *. apply (Hstep j s w1 w2 Hn Hw1 Hs).
 Qed.
